@@ -210,7 +210,19 @@ func C12_SymbolicPool() {
 	for k := 0; k < n; k++ {
 		id := "k" + string(rune('0'+k))
 		var o tengo.Object
-		switch vf.Choice(id+".kind", 4) {
+		switch vf.Choice(id+".kind", 6) {
+		case 4:
+			// a compiled function: one of two bodies, symbolic signature
+			body := tengo.MakeInstruction(parser.OpReturn, 0)
+			if vf.Choice(id+".body", 2) == 1 {
+				body = append(tengo.MakeInstruction(parser.OpGetLocal, 0), tengo.MakeInstruction(parser.OpReturn, 1)...)
+			}
+			o = &tengo.CompiledFunction{Instructions: body, NumParameters: int(vf.Byte(id + ".np")), NumLocals: int(vf.Byte(id + ".nl")), VarArgs: vf.Bool(id + ".va")}
+		case 5:
+			// a builtin-module table; its contents are a function of its name
+			// (two tables with the same module name are the same module)
+			nm := vf.String(id+".m", vf.Choice(id+".mlen", 2))
+			o = &tengo.ImmutableMap{Value: map[string]tengo.Object{"__module_name__": &tengo.String{Value: nm}, "v": &tengo.String{Value: nm + "!"}}}
 		case 0:
 			o = &tengo.Int{Value: vf.Int64(id + ".i")}
 		case 1:
@@ -240,6 +252,13 @@ func C12_SymbolicPool() {
 	acc := true
 	for k := 0; k < n; k++ {
 		acc = vf.And(acc, Same(g1[k], g2[k]))
+		if f1, ok := g1[k].(*tengo.CompiledFunction); ok {
+			f2, ok2 := g2[k].(*tengo.CompiledFunction)
+			acc = vf.And(acc, ok2 && string(f1.Instructions) == string(f2.Instructions))
+			if ok2 {
+				acc = vf.And(acc, vf.And(f1.NumParameters == f2.NumParameters, vf.And(f1.NumLocals == f2.NumLocals, f1.VarArgs == f2.VarArgs)))
+			}
+		}
 	}
 	vf.Assert(acc, "every constant load yields the same value after de-duplication")
 	vf.Assert(len(b2.Constants) <= len(b1.Constants), "de-duplication never grows the pool")
